@@ -11,4 +11,7 @@ PINS = {
 
 
 def generate():
-    return modelpins.generate_for("C03", PINS)
+    text, changed = modelpins.generate_for("C03", PINS)
+    if changed:
+        print("PIN-MISMATCH PinsC03: %s changed; the hand-written model of C03 mirrors the pinned text" % ", ".join(changed))
+    return text
